@@ -159,8 +159,10 @@ class Ctx:
         # Print Assumptions output
         with Lock("coq"):
             rc, o, e = sh(["coqc", "-Q", ".", "YV", "Props/%s.v" % propfile, "-o",
-                           os.path.join(self.scratch, "pa.vo")], cwd=COQ, timeout=900)
+                           os.path.join(self.scratch, propfile + ".vo")], cwd=COQ, timeout=900)
         out = o + e
+        if rc != 0:
+            raise RuntimeError("coqc Props/%s.v failed: %s" % (propfile, out[-2000:]))
         closed = out.count("Closed under the global context")
         axs = re.findall(r"^Axioms:\n((?:.+\n)+?)(?=\S|\Z)", out, re.M)
         self.axioms = {"closed_under_global_context": closed,
